@@ -293,7 +293,7 @@ def distinct_cases(chk, prover):
 def run(chk, tier, seed):
     common.build_capy()
     rnd = random.Random(seed)
-    nen = 12 if tier == 'quick' else 120
+    nen = 12 if tier == 'quick' else 480
     enums = [Enum('Ek0', [('V0', S('i32'), None), ('V1', S('u8'), 7), ('V2', None, None), ('V3', S('i64'), 40), ('V4', PAIR, None), ('V5', None, 250)])]
     enums += [gen_enum(rnd, i) for i in range(nen)]
     obs = []; decls = [PAIR.decl()]
@@ -302,7 +302,7 @@ def run(chk, tier, seed):
         o, _ = enum_switch_obs(en, rnd, i)
         obs += o
     obs += other_sum_obs()
-    ro, rdecls = roundtrip_obs(rnd, 6 if tier == 'quick' else 60)
+    ro, rdecls = roundtrip_obs(rnd, 6 if tier == 'quick' else 240)
     obs += ro; decls += rdecls
     mod, obs, src, refs = clifcheck.compile_obligations(chk, 'switches', clifcheck.PRELUDE + '\n'.join(decls) + '\n', obs)
     chk.opcodes.update(mod.opcodes)
